@@ -13,7 +13,7 @@ EXPLANATION = ("Decided from MIR: (R1) in EntryStore::finalize every call that c
                "EntryStore::add_entry returns the Bound obtained from the entry it pushes; (R4) in both value stores the sort precedes the "
                "assignment of value ids and `finalized = true` comes last. The stored reference value for a given graph is not decided."
                " (R3 Word) Word::get evaluates the stored closure at every call: no memoised value in `get` nor as a field of Word."
-               " Added later: (R5) a constructor given a Vow<EntryIdx> moves it whole into the entry; (R6) = C02-R1 for positions kept in signed columns; (R7) the transformation of the caller's values never evaluates a deferred word; (R1) no sort after a consumer.")
+               " Added later: (R5) a constructor given a Vow<EntryIdx> moves it whole into the entry; (R6) = C02-R1 for positions kept in signed columns; (R7) the transformation of the caller's values never evaluates a deferred word; (R1) no sort after a consumer. (R8) = C02-R16 for constant columns of references.")
 ASSUMPTIONS = ["rayon par_iter_mut().enumerate() yields (position, element) pairs", "atomics with Relaxed ordering are read after the join of finalisation",
                "rustc MIR construction and trait resolution"]
 
@@ -244,7 +244,23 @@ def r7_deferred_words_stay_deferred(cx):
           "the transformation of the caller's values builds deferred words (%d sites) and never reads the current value of one (reads at lines %s)" % (len(words), reads))
 
 
+def r8_constant_reference_columns_keep_their_width(cx):
+    """when every entry refers to the same target the column is a constant, written once as a default on the width found by
+    the sizing pass (= C02-R16 under C15)"""
+    import c02
+    orig = cx.ob
+
+    def ob(rule, key, *a, **kw):
+        return orig("R8", key.replace("R16/", "R8/", 1), *a, **kw)
+    cx.ob = ob
+    try:
+        c02.r16_declared_width_comes_from_the_sizing_alone(cx)
+    finally:
+        cx.ob = orig
+
+
 RULES = [
+    ("R8", r8_constant_reference_columns_keep_their_width, 2),
     ("R7", r7_deferred_words_stay_deferred, 1),
     ("R6", r6_positions_in_signed_columns_keep_their_width, 3),
     ("R1", r1_reindex, 7),
